@@ -44,161 +44,463 @@ let cfg_of_sx (s : sx) : config =
   | "direct" -> CDirect (zs (List.hd (args a)))
   | t -> failwith ("unknown cfg " ^ t)
 
-let nat_arg (s : sx) : nat =
-  let i = int_of_sx s in if i < 0 then failwith "negative branch or count" else nat_of_int i
+(* operations of the trace; branch numbers and counts stay OCaml ints (10^4 branches as unary nat
+   per operation would dominate the large cases) *)
+type xop =
+  | XC of int * z * commit
+  | XFork of int * int
+  | XMerge of int list
+  | XFloor of z * z
+  | XInit of int              (* the item is initialised again; the forks are dropped *)
 
-let op_of_sx (s : sx) : op =
+let nonneg (s : sx) : int =
+  let i = int_of_sx s in if i < 0 then failwith "negative branch or count" else i
+
+let xop_of_sx (s : sx) : xop =
   let a i = List.nth (args s) i in
   match tag s with
   | "c" ->
-      OConsume (nat_arg (a 0), zs (a 1),
-                { c_hash = zs (a 2); c_when = time_of_unix (zs (a 3)) (zs (a 4)); c_parents = nat_arg (a 5) })
-  | "fork" -> OFork (nat_arg (a 0), nat_arg (a 1))
-  | "merge" -> OMerge (List.map nat_arg (list_of_sx (a 0)))
-  | "floor" -> OFloor (time_of_unix (zs (a 0)) (zs (a 1)), zs (a 2))
+      XC (nonneg (a 0), zs (a 1),
+          { c_hash = zs (a 2); c_when = time_of_unix (zs (a 3)) (zs (a 4)); c_parents = nat_of_int (nonneg (a 5)) })
+  | "fork" -> XFork (nonneg (a 0), nonneg (a 1))
+  | "merge" -> XMerge (List.map nonneg (list_of_sx (a 0)))
+  | "floor" -> XFloor (time_of_unix (zs (a 0)) (zs (a 1)), zs (a 2))
+  | "init" -> XInit (int_of_sx (a 0))
   | t -> failwith ("unknown op " ^ t)
+
+let op_of_x : xop -> op = function
+  | XC (b, i, c) -> OConsume (nat_of_int b, i, c)
+  | XFork (b, n) -> OFork (nat_of_int b, nat_of_int n)
+  | XMerge bs -> OMerge (List.map nat_of_int bs)
+  | XFloor (t, d) -> OFloor (t, d)
+  | XInit _ -> failwith "init is not an operation of the model: it starts a new run"
+
+(* for the extracted functions that do not read branch numbers and counts (shape, consumed) *)
+let op_flat : xop -> op = function
+  | XC (_, i, c) -> OConsume (O, i, c)
+  | XFork _ -> OFork (O, O)
+  | XMerge _ -> OMerge []
+  | XFloor (t, d) -> OFloor (t, d)
+  | XInit _ -> failwith "init"
 
 let reg_of_sx (s : sx) : (z * z list) list =
   List.map (fun e -> match e with
     | L [k; l] -> (zs k, List.map zs (list_of_sx l))
     | _ -> failwith "registry entry") (args s)
 
+let clip (s : string) = if String.length s <= 400 then s else String.sub s 0 400 ^ " ..."
 let show_reg r =
-  String.concat " " (List.map (fun (k, l) -> string_of_z k ^ ":" ^ show_zs l) r)
+  let n = List.length r in
+  let first = List.filteri (fun i _ -> i < 8) r in
+  clip (String.concat " " (List.map (fun (k, l) -> string_of_z k ^ ":" ^ show_zs (List.filteri (fun i _ -> i < 12) l)
+                                                 ^ (if List.length l > 12 then Printf.sprintf "(%d hashes)" (List.length l) else "")) first)
+        ^ (if n > 8 then Printf.sprintf " ... (%d ticks)" n else ""))
+let show_zs_short l =
+  let n = List.length l in
+  if n <= 24 then show_zs l
+  else show_zs (List.filteri (fun i _ -> i < 12) l) ^ "..." ^ show_zs (List.filteri (fun i _ -> i >= n - 6) l) ^ Printf.sprintf "(%d)" n
 
 let sort_reg r = List.sort (fun (a, _) (b, _) -> match Z.compare a b with Lt -> -1 | Eq -> 0 | Gt -> 1) r
 
 let zeq a b = Z.eqb a b
+let zlist_eq a b = List.length a = List.length b && List.for_all2 zeq a b
+let reg_eq a b = List.length a = List.length b && List.for_all2 (fun (k, l) (k', l') -> zeq k k' && zlist_eq l l') a b
 
-let () =
-  iter_cases (fun id c ->
-    let cfg = cfg_of_sx (field "cfg" c) in
-    let sops = args (field "ops" c) in
-    let ops = List.map op_of_sx sops in
-    let obs = args (field "obs" c) in
-    let nops = List.length ops in
-    if List.length obs <> nops + 1 then failwith "ops/obs length";
-    let s0 = init_sys cfg in
-    let d = (List.hd s0.brs).tick_size in
-    (* ---------------- fine correspondence: model state after every step *)
-    let st = ref s0 in
-    let impl_outs = ref [] in       (* the implementation's outputs in the model's vocabulary *)
-    let usable = ref true in        (* false when an observation cannot be turned into an output *)
-    List.iteri (fun i (o, ob) ->
-      let here = Printf.sprintf "op#%d %s" i (string_of_sx (List.nth sops i)) in
-      let (st', r) = step !st o in
+(* ------------------------------------------------------------------ the model with an indexed registry
+
+   consume_branch reads and writes commits[tick] only (TicksProofs.consume_branch_registry), and the
+   tick does not depend on the registry.  The large cases therefore keep the model's registry in a hash
+   table and hand the EXTRACTED consume_branch_fast (= consume_branch, C19_consume_fast: the scan of
+   commits[tick] without Coq's quadratic rev) the one entry it touches; tick0 and the branch records
+   are the model's.  Small cases run the plain extracted [step] as well and the two must agree. *)
+
+(* a branch history as a chain of cells shared between a branch and its forks *)
+type cell = Nil | Cell of cellr
+and cellr = { ev : event; up : cell; mutable judged : bool }
+type sm = {
+  mutable t0 : z;
+  mutable brs : branch array;
+  mutable nbr : int;
+  sreg : (string, z * z list) Hashtbl.t;
+}
+
+let key (k : z) = string_of_z k
+
+let sm_init (cfg : config) : sm =
+  let s0 = init_sys cfg in
+  { t0 = s0.sh.tick0; brs = Array.make 8 (List.hd s0.brs); nbr = 1; sreg = Hashtbl.create 64 }
+
+let sm_push (m : sm) (br : branch) =
+  if m.nbr = Array.length m.brs then begin
+    let a = Array.make (2 * m.nbr) br in
+    Array.blit m.brs 0 a 0 m.nbr; m.brs <- a
+  end;
+  m.brs.(m.nbr) <- br; m.nbr <- m.nbr + 1
+
+let sm_step (m : sm) (x : xop) : out =
+  match x with
+  | XC (b, index, c) ->
+      if b >= m.nbr then RBad else begin
+        let br = m.brs.(b) in
+        let ((sh1, br1), k) = consume_branch_fast { tick0 = m.t0; commits = [] } br index c in
+        let kk = key k in
+        let ((sh2, br2), k2) =
+          (match Hashtbl.find_opt m.sreg kk with
+           | None -> ((sh1, br1), k)
+           | Some (_, l) -> consume_branch_fast { tick0 = m.t0; commits = [(k, l)] } br index c) in
+        if not (zeq k k2) then failwith "internal: the tick depends on the registry";
+        m.t0 <- sh2.tick0; m.brs.(b) <- br2;
+        Hashtbl.replace m.sreg kk (k, reg_get sh2.commits k);
+        RTick k
+      end
+  | XFork (b, n) ->
+      if b >= m.nbr then RBad else begin
+        let first = m.nbr in
+        for _ = 1 to n do sm_push m m.brs.(b) done;
+        RFork (nat_of_int first)
+      end
+  | XMerge _ -> RUnit
+  | XFloor (t, d) -> RTime (floor_time t d)
+  | XInit _ -> failwith "init"
+
+let sm_registry (m : sm) : (z * z list) list =
+  sort_reg (Hashtbl.fold (fun _ e acc -> e :: acc) m.sreg [])
+
+(* ------------------------------------------------------------------ findings, capped per case and category *)
+let caps : (int * string, int) Hashtbl.t = Hashtbl.create 16
+let capped (id : int) (cat : string) (f : unit -> unit) =
+  let n = (try Hashtbl.find caps (id, cat) with Not_found -> 0) in
+  Hashtbl.replace caps (id, cat) (n + 1);
+  if n < 4 then f ()
+
+(* ------------------------------------------------------------------ one analysis: the operations between
+   two initialisations of the item.  [fin] is the observation at its end (of the init operation that
+   follows, or of the end of the case). *)
+let analysis (id : int) (kind : string) (cfg : config) (big : bool) (nph : int) (ph : int)
+             (xs : (int * sx * xop) list) (obs : sx list) (fin : sx) : unit =
+  let where = if nph > 1 then Printf.sprintf "analysis %d of %d: " (ph + 1) nph else "" in
+  let mismatch id what = mismatch id (where ^ what) in
+  let propfail id what = propfail id (where ^ what) in
+  let s0 = init_sys cfg in
+  let d = (List.hd s0.brs).tick_size in
+  let m = sm_init cfg in
+  (* small cases: the plain extracted model and the whole histories judge; every third case also runs
+     the indexed model and the segment-wise / indexed oracles of the large cases and the two must agree *)
+  let self_check = not big && id mod 3 = 0 in
+  let st = ref s0 in                (* the plain extracted model, small cases only *)
+  let impl_outs = ref [] in         (* the implementation's outputs in the model's vocabulary *)
+  let usable = ref true in          (* false when an observation cannot be turned into an output *)
+  (* branch histories and consumed commits, from the implementation's outputs *)
+  let lin = ref (Array.make 8 Nil) in
+  let nlin = ref 1 in
+  let lin_push l =
+    if !nlin = Array.length !lin then begin
+      let a = Array.make (2 * !nlin) Nil in Array.blit !lin 0 a 0 !nlin; lin := a end;
+    !lin.(!nlin) <- l; incr nlin in
+  let evs_rev = ref [] in
+  let record x io =
+    (match x, io with
+     | XC (b, _, c), RTick k ->
+         evs_rev := (c, k) :: !evs_rev;
+         if b < !nlin then !lin.(b) <- Cell { ev = (c, k); up = !lin.(b); judged = false }
+     | XFork (b, n), RFork _ -> if b < !nlin then (let l = !lin.(b) in for _ = 1 to n do lin_push l done)
+     | _ -> ());
+    impl_outs := io :: !impl_outs in
+  List.iter2 (fun (i, sop, x) ob ->
+    let here = Printf.sprintf "op#%d %s" i (string_of_sx sop) in
+    let rs = if big || self_check then sm_step m x else RBad in
+    let floor_obs t =
+      let a = args ob in
+      let gt = time_of_unix (zs (List.nth a 0)) (zs (List.nth a 1)) in
+      count "floors";
+      (match x with
+       | XFloor (t_in, dd) when (match dd with Zpos _ -> true | _ -> false) ->
+           (* property: the greatest multiple of d (from the zero time) not after t *)
+           if not (floor_ok t_in dd gt) then
+             propfail id (here ^ " FloorTime result " ^ string_of_z gt ^ " is not the greatest multiple of d not after t=" ^ string_of_z t_in)
+           else if not (zeq gt t) then mismatch id (here ^ " FloorTime impl=" ^ string_of_z gt ^ " model=" ^ string_of_z t)
+       | _ -> if not (zeq gt t) then mismatch id (here ^ " FloorTime (d<=0) impl=" ^ string_of_z gt ^ " model=" ^ string_of_z t)) in
+    if big then begin
+      (* compact observations: the tick / the first clone only; the model is the indexed one *)
+      (match rs, ob with
+       | RBad, L [A "bad"] -> record x RBad
+       | RTick k, A g ->
+           let gk = z_of_string g in
+           record x (RTick gk);
+           if not (zeq gk k) then capped id "tick" (fun () -> mismatch id (here ^ " tick impl=" ^ string_of_z gk ^ " model=" ^ string_of_z k))
+       | RFork f, L [A "fork"; g] ->
+           record x (RFork f);
+           if int_of_nat f <> int_of_sx g then capped id "fork" (fun () -> mismatch id (here ^ " first clone"))
+       | RUnit, L [A "u"] -> record x RUnit
+       | RTime t, L (A "time" :: _) -> record x (RTime t); floor_obs t
+       | _, L [A ("panic" | "error")] ->
+           usable := false; record x RBad;
+           capped id "failed" (fun () -> propfail id (here ^ " the implementation failed: " ^ string_of_sx ob))
+       | _ -> usable := false; record x RBad; capped id "shape" (fun () -> mismatch id (here ^ " observation shape " ^ clip (string_of_sx ob))))
+    end else begin
+      let (st', r) = step !st (op_of_x x) in
+      if self_check && r <> rs then failwith ("internal: the indexed model differs from the extracted step at " ^ here);
       let prevs_model = List.map (fun b -> b.previous_tick) st'.brs in
       let check_prevs p =
         let got = List.map zs (args p) in
-        if List.length got <> List.length prevs_model || not (List.for_all2 zeq got prevs_model) then
+        if not (zlist_eq got prevs_model) then
           mismatch id (here ^ " previousTick of the branches: impl=" ^ show_zs got ^ " model=" ^ show_zs prevs_model) in
       (match r, tag ob with
-       | RBad, "bad" -> impl_outs := RBad :: !impl_outs
+       | RBad, "bad" -> record x RBad
        | RTick k, "tick" ->
            let a = args ob in
            let gk = zs (List.nth a 0) in
-           impl_outs := RTick gk :: !impl_outs;
+           record x (RTick gk);
            if not (zeq gk k) then mismatch id (here ^ " tick impl=" ^ string_of_z gk ^ " model=" ^ string_of_z k);
            check_prevs (List.nth a 1);
            let t0 = (match args (List.nth a 2) with [s; n] -> time_of_unix (zs s) (zs n) | _ -> failwith "t0") in
            if not (zeq t0 st'.sh.tick0) then
              mismatch id (here ^ " tick0 impl=" ^ string_of_z t0 ^ " model=" ^ string_of_z st'.sh.tick0);
            let under = List.map zs (list_of_sx (List.hd (args (List.nth a 3)))) in
-           let munder = (let rec get = function [] -> [] | (k', l) :: r -> if zeq k' gk then l else get r in get st'.sh.commits) in
-           if List.length under <> List.length munder || not (List.for_all2 zeq under munder) then
+           let munder = reg_get st'.sh.commits gk in
+           if not (zlist_eq under munder) then
              mismatch id (here ^ " commits[tick] impl=" ^ show_zs under ^ " model=" ^ show_zs munder);
            if int_of_sx (List.nth a 4) <> 1 then mismatch id (here ^ " Consume returned more than the tick")
        | RFork f, "fork" ->
-           impl_outs := RFork f :: !impl_outs;
+           record x (RFork f);
            if int_of_nat f <> int_of_sx (List.nth (args ob) 0) then mismatch id (here ^ " first clone");
            check_prevs (List.nth (args ob) 1)
-       | RUnit, "u" -> impl_outs := RUnit :: !impl_outs; check_prevs (List.hd (args ob))
-       | RTime t, "time" ->
-           impl_outs := RTime t :: !impl_outs;
-           let a = args ob in
-           let gt = time_of_unix (zs (List.nth a 0)) (zs (List.nth a 1)) in
-           count "floors";
-           (match o with
-            | OFloor (t_in, dd) when (match dd with Zpos _ -> true | _ -> false) ->
-                (* property: the greatest multiple of d (from the zero time) not after t *)
-                if not (floor_ok t_in dd gt) then
-                  propfail id (here ^ " FloorTime result " ^ string_of_z gt ^ " is not the greatest multiple of d not after t=" ^ string_of_z t_in)
-                else if not (zeq gt t) then mismatch id (here ^ " FloorTime impl=" ^ string_of_z gt ^ " model=" ^ string_of_z t)
-            | _ -> if not (zeq gt t) then mismatch id (here ^ " FloorTime (d<=0) impl=" ^ string_of_z gt ^ " model=" ^ string_of_z t))
+       | RUnit, "u" -> record x RUnit; check_prevs (List.hd (args ob))
+       | RTime t, "time" -> record x (RTime t); floor_obs t
        | _, ("panic" | "error") ->
-           usable := false; impl_outs := RBad :: !impl_outs;
+           usable := false; record x RBad;
            propfail id (here ^ " the implementation failed: " ^ string_of_sx ob)
-       | _ -> usable := false; impl_outs := RBad :: !impl_outs; mismatch id (here ^ " observation shape " ^ string_of_sx ob));
-      st := st') (List.combine ops (List.filteri (fun i _ -> i < nops) obs));
-    let fin = List.nth obs nops in
-    let greg = (match args fin with
-      | [dsx; pub; same; reg] ->
-          if not (zeq (zs dsx) d) then mismatch id ("TickSize impl=" ^ atom dsx ^ " model=" ^ string_of_z d);
-          (* the published fact is what Configure computed (before Initialize replaces a zero size) *)
-          let mpub = (match cfg with CDirect _ -> configure CDefault | _ -> configure cfg) in
-          if not (zeq (zs pub) mpub) then mismatch id ("published tick size impl=" ^ atom pub ^ " model=" ^ string_of_z mpub);
-          if not (bool_of_sx same) then
-            propfail id "the branches (or the published fact) do not share one commits registry / tick size";
-          reg_of_sx reg
-      | _ -> failwith "end observation") in
-    let mreg = sort_reg !st.sh.commits in
-    if List.length greg <> List.length mreg
-       || not (List.for_all2 (fun (k, l) (k', l') -> zeq k k' && List.length l = List.length l' && List.for_all2 zeq l l') greg mreg) then
-      mismatch id ("final registry impl=" ^ show_reg greg ^ " model=" ^ show_reg mreg);
-    (* ---------------- property oracles on the implementation's outputs *)
-    if !usable then begin
-      let outs = List.rev !impl_outs in
-      let lins = lineages ops outs [[]] in
-      let evs = consumed ops outs in
-      (* monotone along every branch history: all inputs *)
-      List.iteri (fun b l ->
-        if not (nondecreasing Z0 (ticks l)) then
-          propfail id (Printf.sprintf "ticks decrease along the history of branch %d: %s" b (show_zs (ticks l)))) lins;
+       | _ -> usable := false; record x RBad; mismatch id (here ^ " observation shape " ^ string_of_sx ob));
+      st := st'
+    end) xs obs;
+  (* ---------------- the end of the analysis *)
+  let mreg = if big then sm_registry m else sort_reg !st.sh.commits in
+  if self_check && not (reg_eq (sm_registry m) mreg) then failwith "internal: the indexed registry differs from the extracted model's";
+  let (greg, preg_opt) = (match args fin with
+    | dsx :: pub :: same :: reg :: rest ->
+        if not (zeq (zs dsx) d) then mismatch id ("TickSize impl=" ^ atom dsx ^ " model=" ^ string_of_z d);
+        (* the published fact is what Configure computed (before Initialize replaces a zero size) *)
+        let mpub = (match cfg with CDirect _ -> configure CDefault | _ -> configure cfg) in
+        if not (zeq (zs pub) mpub) then mismatch id ("published tick size impl=" ^ atom pub ^ " model=" ^ string_of_z mpub);
+        let pubreg = (match rest with
+          | p :: _ when tag p = "pub" -> (match args p with [A "eq"] -> None | _ -> Some (reg_of_sx p))
+          | _ -> None) in
+        List.iter (fun f -> match tag f with
+          | "prev" ->
+              let got = List.map zs (args f) in
+              let model = List.init m.nbr (fun i -> m.brs.(i).previous_tick) in
+              if not (zlist_eq got model) then
+                mismatch id ("previousTick of the branches at the end: impl=" ^ show_zs_short got ^ " model=" ^ show_zs_short model)
+          | "t0" ->
+              let t0 = (match args f with [s; n] -> time_of_unix (zs s) (zs n) | _ -> failwith "t0") in
+              if not (zeq t0 m.t0) then mismatch id ("tick0 at the end impl=" ^ string_of_z t0 ^ " model=" ^ string_of_z m.t0)
+          | "after" ->
+              (* the state right after the next Initialize: both registries empty, previousTick 0, tick0 the zero time *)
+              (match List.map zs (args f) with
+               | [a; b; p; s; n] ->
+                   if not (zeq a Z0 && zeq b Z0) then
+                     mismatch id ("after Initialize the registry has " ^ string_of_z a ^ " ticks, the published one " ^ string_of_z b ^ " (model: emptied in place)");
+                   if not (zeq p Z0) then mismatch id ("after Initialize previousTick impl=" ^ string_of_z p ^ " model=0");
+                   if not (zeq (time_of_unix s n) Z0) then mismatch id ("after Initialize tick0 impl=" ^ string_of_z (time_of_unix s n) ^ " model=0")
+               | _ -> failwith "after")
+          | _ -> ()) rest;
+        if not (bool_of_sx same) then
+          propfail id "the branches and the registry published in facts[TicksSinceStart.Commits] at Configure time are not one commits registry";
+        (reg_of_sx reg, pubreg)
+    | _ -> failwith "end observation") in
+  if not (reg_eq greg mreg) then
+    mismatch id ("final registry impl=" ^ show_reg greg ^ " model=" ^ show_reg mreg);
+  (match preg_opt with
+   | Some p when not (reg_eq p mreg) -> mismatch id ("final PUBLISHED registry impl=" ^ show_reg p ^ " model=" ^ show_reg mreg)
+   | _ -> ());
+  (* ---------------- property oracles on the implementation's outputs.  The registry that counts is the
+     published one (what a downstream item holds); a private map that differs is judged as well. *)
+  if !usable then begin
+    let outs = List.rev !impl_outs in
+    let flat = List.map (fun (_, _, x) -> op_flat x) xs in
+    (* the histories in segments: every cell once, with the tick and the time that precede the segment
+       (C19_history_in_segments).  Small cases are judged on the whole histories computed by the extracted
+       [lineages]; the segments are then only a self-check. *)
+    let segments = if not (big || self_check) then [] else List.concat (List.init !nlin (fun b ->
+      let rec walk c acc = (match c with
+        | Cell r when not r.judged -> r.judged <- true; walk r.up (r.ev :: acc)
+        | Cell r -> (Some r.ev, acc)
+        | Nil -> (None, acc)) in
+      let (before, seg) = walk !lin.(b) [] in
+      if seg = [] then [] else [(b, before, seg)])) in
+    let (lins, evs) =
+      if big then ([], List.rev !evs_rev)
+      else begin
+        let ops = List.map (fun (_, _, x) -> op_of_x x) xs in
+        let lins = lineages ops outs [[]] and evs = consumed ops outs in
+        if self_check then begin
+          let mine = List.init !nlin (fun b ->
+            let rec all c acc = (match c with Cell r -> all r.up (r.ev :: acc) | Nil -> acc) in all !lin.(b) []) in
+          if mine <> lins then failwith "internal: branch histories differ from the extracted lineages";
+          if List.rev !evs_rev <> evs || consumed flat outs <> evs then failwith "internal: consumed commits differ from the extracted consumed";
+          if shape ops outs <> shape flat outs then failwith "internal: shape reads branch numbers"
+        end;
+        (lins, evs)
+      end in
+    let whole = List.mapi (fun b l -> (b, None, l)) lins in
+    (* a per-history oracle: reported on the segments (large cases) or on the whole histories *)
+    let judge what (f : bool -> (int * event option * event list) list -> bool) =
+      if big then ignore (f true segments)
+      else begin
+        let bad = f true whole in
+        if self_check && bad <> f false segments then failwith ("internal: segment-wise " ^ what ^ " differs")
+      end in
+    let by_hash : (string, event) Hashtbl.t = Hashtbl.create 64 in
+    let hashes = ref [] in
+    List.iter (fun e ->
+      let hk = key (fst e).c_hash in
+      if not (Hashtbl.mem by_hash hk) then hashes := hk :: !hashes;
+      Hashtbl.add by_hash hk e) (List.rev evs);   (* find_all: oldest first *)
+    let hashes = !hashes in
+    let after = function None -> "" | Some e -> " (the part of the history after commit " ^ string_of_z (fst e).c_hash ^ " with tick " ^ string_of_z (snd e) ^ ")" in
+    (* monotone along every branch history: all inputs *)
+    let decreasing report parts =
+      List.fold_left (fun bad (b, before, l) ->
+        let p = (match before with None -> Z0 | Some e -> snd e) in
+        if nondecreasing p (ticks l) then bad else begin
+          if report then capped id "decrease" (fun () ->
+            propfail id (Printf.sprintf "ticks decrease along the history of branch %d: %s%s" b (show_zs_short (ticks l)) (after before)));
+          true end) false parts in
+    judge "monotonicity" decreasing;
+    let regs = (match preg_opt with
+      | None -> [("", greg)]
+      | Some p -> [(" in the PUBLISHED registry (facts[TicksSinceStart.Commits] captured at Configure time)", p);
+                   (" in the item's private registry", greg)]) in
+    let indexed = List.map (fun (name, r) ->
+      let t : (string, z * z list) Hashtbl.t = Hashtbl.create 64 in
+      List.iter (fun (k, l) -> Hashtbl.replace t (key k) (k, l)) r;
+      let cnt : (string, int) Hashtbl.t = Hashtbl.create 64 in
+      List.iter (fun (_, l) -> List.iter (fun h -> let hk = key h in
+        Hashtbl.replace cnt hk (1 + try Hashtbl.find cnt hk with Not_found -> 0)) l) r;
+      (name, r, t, cnt)) regs in
+    let count_of cnt h = (try Hashtbl.find cnt (key h) with Not_found -> 0) in
+    List.iter (fun (name, r, t, cnt) ->
       (* every consumed commit is listed under its tick: all inputs *)
+      let listed_i e = (match Hashtbl.find_opt t (key (snd e)) with None -> false | Some kl -> listed [kl] e) in
+      let all_listed = ref true in
       List.iter (fun e ->
-        if not (listed greg e) then
-          propfail id ("commit " ^ string_of_z (fst e).c_hash ^ " got tick " ^ string_of_z (snd e) ^ " but is not listed under it: " ^ show_reg greg)) evs;
-      let positive = (match d with Zpos _ -> true | _ -> false) in
-      match shape ops outs with
-      | Some c0 when positive && evs <> [] ->
-          count "in_domain";
-          let t0 = spec_t0 c0.c_when d in
-          (* tick = max prev (whole periods elapsed since t0), with unbounded integers, along every
-             history.  Where Time.Sub saturates (more than 2^63-1 ns between t0 and the commit) a
-             difference is the known finding F17; it is expected only in the -sat streams. *)
-          let kind = atom (List.hd (args (field "kind" c))) in
-          let sat_stream = String.length kind >= 4 && String.sub kind (String.length kind - 4) 4 = "-sat" in
-          List.iteri (fun b l ->
-            let prev = ref Z0 in
-            List.iter2 (fun e (ok, inr) ->
-              if not ok then begin
+        if not (listed_i e) then begin
+          all_listed := false;
+          capped id ("listed" ^ name) (fun () ->
+            propfail id ("commit " ^ string_of_z (fst e).c_hash ^ " got tick " ^ string_of_z (snd e) ^ " but is not listed under it" ^ name ^ ": " ^ show_reg r))
+        end) evs;
+      (* nothing else is listed: whatever is listed under a tick was consumed with that tick in THIS analysis *)
+      let only = ref true in
+      List.iter (fun (k, l) -> List.iter (fun h ->
+        if not (only_consumed [(k, [h])] (Hashtbl.find_all by_hash (key h))) then begin
+          only := false;
+          capped id ("only" ^ name) (fun () ->
+            propfail id ("tick " ^ string_of_z k ^ " lists commit " ^ string_of_z h ^ name ^ ", which this analysis did not consume with that tick"
+                         ^ " (a commit of an analysis before the last Initialize, or a wrong tick): " ^ show_reg r))
+        end) l) r;
+      if not big then begin
+        if List.for_all (listed r) evs <> !all_listed then failwith "internal: indexed listed differs";
+        if only_consumed r evs <> !only then failwith "internal: indexed only_consumed differs";
+        List.iter (fun e -> if int_of_nat (reg_count r (fst e).c_hash) <> count_of cnt (fst e).c_hash then failwith "internal: indexed reg_count differs") evs
+      end) indexed;
+    let positive = (match d with Zpos _ -> true | _ -> false) in
+    match shape flat outs with
+    | Some c0 when positive && evs <> [] ->
+        count "in_domain";
+        let t0 = spec_t0 c0.c_when d in
+        (* tick = max prev (whole periods elapsed since t0), with unbounded integers, along every
+           history.  Where Time.Sub saturates (more than 2^63-1 ns between t0 and the commit) a
+           difference is the known finding F17; it is expected only in the -sat streams. *)
+        let sat_stream = String.length kind >= 4 && String.sub kind (String.length kind - 4) 4 = "-sat" in
+        let formula report parts =
+          List.fold_left (fun bad (b, before, l) ->
+            let prev = ref (match before with None -> Z0 | Some e -> snd e) in
+            List.fold_left2 (fun bad e (ok, inr) ->
+              let bad' = bad || not ok in
+              if not ok && report then begin
                 let t = (fst e).c_when in
                 let expected = spec_tick t0 d !prev t in
                 if inr then
-                  propfail id (Printf.sprintf "tick formula violated on branch %d: commit %s at t=%s got tick %s, expected max(prev=%s, floor((t - t0)/d)) = %s (t0=%s d=%s)"
+                  capped id "formula" (fun () ->
+                    propfail id (Printf.sprintf "tick formula violated on branch %d: commit %s at t=%s got tick %s, expected max(prev=%s, floor((t - t0)/d)) = %s (t0=%s d=%s)"
                                  b (string_of_z (fst e).c_hash) (string_of_z t) (string_of_z (snd e)) (string_of_z !prev)
-                                 (string_of_z expected) (string_of_z t0) (string_of_z d))
+                                 (string_of_z expected) (string_of_z t0) (string_of_z d)))
                 else
-                  propfail id (Printf.sprintf "[duration-saturation]%s tick %s given on branch %d to commit %s but %s periods have elapsed since the start of tick 0 (t - t0 = %s ns is beyond the +-2^63 ns of time.Duration; t0=%s d=%s prev=%s)"
+                  Conv.propfail id (Printf.sprintf "[duration-saturation]%s tick %s given on branch %d to commit %s but %s periods have elapsed since the start of tick 0 (t - t0 = %s ns is beyond the +-2^63 ns of time.Duration; t0=%s d=%s prev=%s)%s"
                                  (if sat_stream then "" else "[outside-sat-stream]")
                                  (string_of_z (snd e)) b (string_of_z (fst e).c_hash) (string_of_z expected)
-                                 (string_of_z (Z.sub t t0)) (string_of_z t0) (string_of_z d) (string_of_z !prev))
+                                 (string_of_z (Z.sub t t0)) (string_of_z t0) (string_of_z d) (string_of_z !prev)
+                                 (if nph > 1 then Printf.sprintf " (analysis %d of %d)" (ph + 1) nph else ""))
               end;
-              prev := snd e) l (chain_verdicts t0 d Z0 l)) lins;
-          if List.exists (fun e -> not (in_range t0 (fst e).c_when)) evs then count "saturated";
-          if List.exists (fun e -> Z.ltb (fst e).c_when t0) evs then count "before_start";
-          (* monotone committer times: no raising, the tick depends on the commit alone, listed exactly once *)
-          if List.for_all (mono_times c0.c_when) lins && replays_ok evs then begin
-            count "monotone_times";
-            List.iteri (fun b l ->
-              if not (alone t0 d l) then
-                propfail id (Printf.sprintf "committer times are monotone but a tick was raised on branch %d: times=%s ticks=%s" b
-                               (show_zs (times l)) (show_zs (ticks l)))) lins;
+              prev := snd e; bad') bad l (chain_verdicts t0 d !prev l)) false parts in
+        judge "formula" formula;
+        if List.exists (fun e -> not (in_range t0 (fst e).c_when)) evs then count "saturated";
+        if List.exists (fun e -> Z.ltb (fst e).c_when t0) evs then count "before_start";
+        (* monotone committer times: no raising, the tick depends on the commit alone, listed exactly once *)
+        let replays = List.for_all (fun h -> replays_ok (Hashtbl.find_all by_hash h)) hashes in
+        if not big && replays_ok evs <> replays then failwith "internal: indexed replays_ok differs";
+        let mono parts = List.for_all (fun (_, before, l) ->
+          nondecreasing (match before with None -> c0.c_when | Some e -> (fst e).c_when) (times l)) parts in
+        let monotone = if big then mono segments else List.for_all (mono_times c0.c_when) lins in
+        if self_check && mono segments <> monotone then failwith "internal: segment-wise mono_times differs";
+        if monotone && replays then begin
+          count "monotone_times";
+          let raised report parts =
+            List.fold_left (fun bad (b, before, l) ->
+              if alone t0 d l then bad else begin
+                if report then capped id "alone" (fun () ->
+                  propfail id (Printf.sprintf "committer times are monotone but a tick was raised on branch %d: times=%s ticks=%s%s" b
+                               (show_zs_short (times l)) (show_zs_short (ticks l)) (after before)));
+                true end) false parts in
+          judge "alone" raised;
+          List.iter (fun (name, r, _, cnt) ->
             List.iter (fun e ->
-              if int_of_nat (reg_count greg (fst e).c_hash) <> 1 then
-                propfail id ("committer times are monotone but commit " ^ string_of_z (fst e).c_hash ^ " is listed "
-                             ^ string_of_int (int_of_nat (reg_count greg (fst e).c_hash)) ^ " times: " ^ show_reg greg)) evs
-          end else if List.exists (fun e -> int_of_nat (reg_count greg (fst e).c_hash) > 1) evs then count "listed_more_than_once"
-      | _ -> count "outside_domain"
-    end);
+              let n = count_of cnt (fst e).c_hash in
+              if n <> 1 then
+                capped id ("once" ^ name) (fun () ->
+                  propfail id ("committer times are monotone but commit " ^ string_of_z (fst e).c_hash ^ " is listed "
+                               ^ string_of_int n ^ " times" ^ name ^ ": " ^ show_reg r))) evs) indexed
+        end else if List.exists (fun e -> List.exists (fun (_, _, _, cnt) -> count_of cnt (fst e).c_hash > 1) indexed) evs then count "listed_more_than_once"
+    | _ -> count "outside_domain"
+  end
+
+let () =
+  iter_cases (fun id c ->
+    Hashtbl.reset caps;
+    let cfg = cfg_of_sx (field "cfg" c) in
+    let kind = atom (List.hd (args (field "kind" c))) in
+    let big = (match field_opt "big" c with Some b -> bool_of_sx (List.hd (args b)) | None -> false) in
+    let sops = args (field "ops" c) in
+    let obs = args (field "obs" c) in
+    let nops = List.length sops in
+    if List.length obs <> nops + 1 then failwith "ops/obs length";
+    (* split into analyses at the init operations *)
+    let nph = 1 + List.length (List.filter (fun s -> tag s = "init") sops) in
+    if nph > 1 then count "lifecycles";
+    if big then count "big";
+    (* cfg is how the item was configured for the current analysis *)
+    let cfg0 = cfg in
+    let rec go cfg ph i cur_ops cur_obs sops obs =
+      match sops, obs with
+      | [], [fin] -> analysis id kind cfg big nph ph (List.rev cur_ops) (List.rev cur_obs) fin
+      | s :: sops', ob :: obs' ->
+          (match xop_of_sx s with
+           | XInit v ->
+               (match tag ob with
+                | "init" -> ()
+                | _ -> propfail id (Printf.sprintf "op#%d Initialize failed: %s" i (string_of_sx ob)));
+               if tag ob = "init" then begin
+                 analysis id kind cfg big nph ph (List.rev cur_ops) (List.rev cur_obs) ob;
+                 (* 0: Initialize only; 1: Configure with the facts map of the previous Configure, in which the
+                    option has been overwritten by the fact of the same name; 2, 3: the option set again *)
+                 let cfg' = (match v with
+                   | 0 -> cfg
+                   | 1 -> reconfigure_same_facts cfg0
+                   | 2 | 3 -> cfg0
+                   | _ -> failwith "init variant") in
+                 go cfg' (ph + 1) (i + 1) [] [] sops' obs'
+               end
+           | x -> go cfg ph (i + 1) ((i, s, x) :: cur_ops) (ob :: cur_obs) sops' obs')
+      | _ -> failwith "ops/obs length" in
+    go cfg0 0 0 [] [] sops obs);
   List.iter (fun (id, what) -> Printf.printf "MISMATCH %d %s\n" id what) (List.rev !deferred)
